@@ -18,6 +18,7 @@ import (
 	"strconv"
 	"strings"
 	"sync"
+	"sync/atomic"
 	"testing"
 	"time"
 
@@ -38,9 +39,15 @@ type c11Rec struct {
 
 var c11Seq int
 
+var c11Handle atomic.Value // http.Handler of the current case
+
 func TestVerifC11UploaderServer(t *testing.T) {
 	defer vstats.Flush()
 	base := t.TempDir()
+	srv := httptest.NewServer(http.HandlerFunc(func(w http.ResponseWriter, r *http.Request) {
+		c11Handle.Load().(http.Handler).ServeHTTP(w, r)
+	}))
+	defer srv.Close()
 	rapid.Check(t, func(t *rapid.T) {
 		c11Seq++
 		root := filepath.Join(base, strconv.Itoa(c11Seq))
@@ -68,7 +75,9 @@ func TestVerifC11UploaderServer(t *testing.T) {
 			UploadConfig: cfgFile, MaxRequestBytes: 100 * 1024, RequestTimeout: time.Minute, Env: "local"})
 		var mu sync.Mutex
 		var recs []c11Rec
-		srv := httptest.NewServer(http.HandlerFunc(func(w http.ResponseWriter, r *http.Request) {
+		// one listening server for the whole test (a server per case exhausts the ephemeral ports under load);
+		// its handler is the current case's
+		c11Handle.Store(http.HandlerFunc(func(w http.ResponseWriter, r *http.Request) {
 			body, _ := io.ReadAll(r.Body)
 			r.Body = io.NopCloser(bytes.NewReader(body))
 			rr := httptest.NewRecorder()
@@ -79,7 +88,6 @@ func TestVerifC11UploaderServer(t *testing.T) {
 			w.WriteHeader(rr.Code)
 			w.Write(rr.Body.Bytes())
 		}))
-		defer srv.Close()
 		tele := filepath.Join(root, "tele")
 		for _, f := range scn.Files {
 			os.WriteFile(filepath.Join(tele, "local", f.Base), f.Bytes, 0666)
